@@ -81,7 +81,26 @@ COMPONENTS["txn"] = {"real": ["utils.Txn", "utils.PCR"], "stub": ["the three ste
 COMPONENTS["lock"] = {"real": ["store/etcdv3/meta.CreateLock", "lock/etcdlock", "etcd client concurrency (Session, Mutex)", "etcd client lessor + KV"], "stub": ["etcd server (simetcd)"]}
 COMPONENTS["eph"] = {"real": ["store/etcdv3/meta.StartEphemeral", "etcd client lessor + KV"], "stub": ["etcd server (simetcd)"]}
 
+COMPONENTS["send"] = {"real": ["rpc.Vibranium.Send + transform (chunking)", "cluster/calcium SendLargeFile + locks", "store/etcdv3", "lock/etcdlock + etcd concurrency"], "stub": ["gRPC server stream (fake stream object)", "etcd server (simetcd)", "node engines (simengine: read all / reject at once / abort after k bytes)"]}
+COMPONENTS["retry"] = {"real": ["client/interceptor NewStreamRetry + retryStream", "cenkalti/backoff on the virtual clock"], "stub": ["grpc.Streamer and client streams (scripted breaks)"]}
+COMPONENTS["disc"] = {"real": ["discovery/helium", "store/etcdv3 ServiceStatusStream + RegisterService", "store/etcdv3/meta StartEphemeral", "etcd client KV + lessor"], "stub": ["etcd server (simetcd)", "subscribers (prompt / slow / stuck readers)"]}
+COMPONENTS["mon"] = {"real": ["selfmon.NodeStatusWatcher (withActiveLock, monitor, initNodeStatus)", "cluster/calcium (SetNode, ListPodNodes, NodeStatusStream, status)", "store/etcdv3 (BindStatus, watches)", "etcd client KV + lessor"], "stub": ["etcd server (simetcd)", "node agents (heartbeat tasks)", "node engines (simengine)"]}
+
 PROPS = {
+    "C27": small("disc", "one evaluation = a seeded history of 4-13 register / deregister / subscribe (prompt, slow 2.5 s per message, or stuck reader) / unsubscribe / wait operations against real helium (push interval 1 s) over real Mercury and simulated etcd; "
+                 "at the end, one push interval plus catch-up time later, every live reading subscriber must hold the registered set and have been served recently, every Unsubscribe must have returned and closed its channel; "
+                 "non-trivial = at least one subscriber; distinct = distinct seam-trace hash",
+                 probes=["registered", "subscribed_prompt", "subscribed_slow", "subscribed_stuck", "unsubscribe", "live_subscriber_checked"]),
+    "C28": small("mon", "one evaluation = 1-3 nodes whose agents heartbeat with TTL 12-20 s, workloads reported running+healthy, and a seeded history of heartbeat lapses (agent stops, TTL expiry), status deletions, waits up to 30 s, creates, with the real selfmon watcher started before or after the lapse; "
+                 "three virtual minutes after the history every workload of a dead node must be reported not running and not healthy, workloads of live nodes untouched; "
+                 "non-trivial = at least one node lost its heartbeat; distinct = distinct seam-trace hash",
+                 quick={"seconds": 30, "runs": 1500}, probes=["heartbeat_lapsed", "status_deleted", "watcher_started_after_a_lapse", "dead_node_workload_checked"], fault_probes=["heartbeat_lapsed", "status_deleted"]),
+    "C29": small("send", "one evaluation = 1-3 Send requests, each with 1-2 files of size 0, 1, chunk-1, chunk, chunk+1, 3, 11, 12, 25 or 40 chunks to 1-3 targets (existing, missing, repeated) on 1-2 nodes whose engine reads everything, rejects the copy at once, or aborts after reading k bytes; "
+                 "a Send that has not returned 20 virtual minutes after all activity stopped is a violation; non-trivial = the Send returned and its results were compared; distinct = distinct seam-trace hash",
+                 quick={"seconds": 30, "runs": 3000}, probes=["sends", "file_delivered_intact", "engine_abort_reported"], fault_probes=["engine_abort_reported"]),
+    "C36": small("retry", "one evaluation = one client stream through NewStreamRetry (budget 1-4) against a scripted server: 1-5 streams that deliver 0-3 messages and then break with Unavailable / Internal / EOF, 0..budget+1 failing attempts to reopen, optional cancellation by the caller after k messages, watch and non-watch methods; "
+                 "non-trivial = every case; distinct = distinct (messages, requests seen by the server) hash",
+                 probes=["stream_reopened", "budget_exhausted", "caller_cancelled"]),
     "C16": small("wal", "one evaluation = a seeded history of 5-35 log / commit / burst / recover / clean reopen / crash-reopen operations by 1-3 concurrent logger tasks over three event types whose handlers succeed, fail, decline, fail the check or fail to decode, or are unregistered after a restart; "
                  "every kv call (NextSequence, Put, Delete, Scan) and every handler call is a scheduler step, the process may die between any two of them (also inside a recovery) and the next instance opens a copy of the bbolt file taken at that step; 0-1 injected kv error; "
                  "non-trivial = at least one event was logged or a crash happened; distinct = distinct seam-trace hash",
@@ -151,6 +170,10 @@ _NOTE_S = ("Trusted: simetcd as a model of etcd (leases on the virtual clock, tx
            "(policed by trace-hash re-runs). A clean batch is evidence over the explored runs, not proof.")
 
 MANIFEST_TEXT = {
+    "C27": {"text": "Real helium + real Mercury service registration over simulated etcd with prompt, slow and stuck subscribers: after the last change and one push interval every live reading subscriber holds exactly the registered set; Unsubscribe returns and closes the channel. Found and fixed two defects (blocking dispatch; subscribers invisible to haxmap.ForEach).", "note": _NOTE_S + " Operations are separated by a few virtual milliseconds so that helium's select never has two ready cases at one instant (Go picks among ready cases at random; no seed controls that)."},
+    "C28": {"text": "The real node-status watcher with TTL heartbeats on the virtual clock: for every node whose heartbeat lapsed or was deleted (watcher started before or after), all its workloads are reported neither running nor healthy within three virtual minutes; live nodes' workloads keep their status.", "note": _NOTE_S + " etcd backend only (the Redis store streams need keyspace notifications that the Redis stub lacks)."},
+    "C29": {"text": "Send through the real RPC handler, chunker, SendLargeFile, workload locks and simulated engines: one result per distinct target and file, byte-identical content with the requested owner/mode where the engine accepted the copy, an error where it did not, and the call always returns (bounded virtual time after quiescence). Found and fixed three defects (empty file, repeated target, hang on missing target / engine abort).", "note": _NOTE_S},
+    "C36": {"text": "The real retry interceptor over scripted stream breaks with back-off on the virtual clock: the client sees the concatenation of the servers' messages while reopening stays within the budget, every new stream gets the original request, nothing is opened after the caller cancelled, non-watch methods get the raw stream.", "note": _NOTE_S + " GODEBUG=randautoseed=0 pins math/rand's global source used by the back-off jitter."},
     "C16": {"text": "History check against a model of the log file: on every recovery the sequence of handler invocations must equal the uncommitted events in id order, each once (a prefix of it when the process dies inside the recovery); an event is gone exactly when it was handled successfully or declined; ids strictly increase over the whole history including restarts; the real file is compared with the model after every phase.", "note": "Trusted: bbolt's transaction atomicity; crash = death between two kv calls with the file copied at that instant. " + _NOTE_S},
     "C17": {"text": "Complete enumeration (exhaustive: true in the evidence when all 252 x 3 cases ran) of outcome vectors x cancellation points for utils.Txn and utils.PCR under the simulator: call log and return value are compared with the specification (then iff cond ok; rollback once iff a step failed, with the right flag; first failure returned; rollback context not reached by the caller's cancellation; PCR rolls back only on commit failure).", "note": _NOTE_S},
     "C18": {"text": "Contenders under seeded schedules on the etcd backend (real etcdlock + real concurrency.Mutex/Session + real lessor over simetcd): never two holders with a live lock context, a try-lock on a held lock fails without virtual time passing, a waiter acquires after a release or fails at its wait timeout, everybody finishes.", "note": _NOTE_S + " The Redis backend joins this check when the simulated Redis is available in the build (see DESIGN)."},
